@@ -156,6 +156,21 @@ def run(ctx):
     correspond(ctx, "evaluate_multi_barycentric", cases,
                [("shim.evaluate_multi_barycentric", a_bary, rows_out), ("hazmat.evaluate_multi_barycentric", a_bary, rows_out)],
                coq_bary, HEADER, "chk_eval_bary", judge=judge_bary, nontrivial=nontriv)
+    # full-mantissa control points of very different magnitude (m * 2^e, 53-bit m, e in -30..30) at the end points, next to them
+    # and at 53-bit parameters, low degrees several times each: a special-case path that is exact on few-bit data (seed c01-5:
+    # v0 + s (v1 - v0) for lines) is judged here with the proved allowance; end points must be the end nodes bit for bit
+    wide = []
+    rng = ctx.rng
+    for n in [1, 1, 1, 2, 2, 3, 4, 5, 6, 8, 12] * (1 if ctx.quick() else 12):
+        dim = rng.randint(1, 3)
+        rows = [[Fraction(rng.choice([-1, 1]) * rng.randint(2 ** 52, 2 ** 53 - 1)) * Fraction(2) ** rng.randint(-83, -23) for _ in range(n + 1)]
+                for _ in range(dim)]
+        ss = [Fraction(1), Fraction(0), 1 - Fraction(1, 2 ** 30), Fraction(rng.randint(2 ** 52, 2 ** 53 - 1), 2 ** 53), Fraction(1, 2 ** 40)]
+        wide.append({"n": n, "rows": rows, "ss": ss, "l1s": [], "l2s": [], "vb": 60})
+    correspond(ctx, "evaluate_multi_wide_range", wide,
+               [("Curve.evaluate_multi", a_multi, rows_out), ("shim.evaluate_multi", a_multi, rows_out),
+                ("hazmat.evaluate_multi", a_multi, rows_out)],
+               coq_multi, HEADER, "chk_eval", judge=judge_multi, nontrivial=nontriv)
     # the two algorithms on their own, on both sides of the switch (pure Python only: they have no compiled twin)
     sub = [c for c in cases if c["n"] <= 60][: (30 if ctx.quick() else 200)]
     correspond(ctx, "evaluate_multi_vs", sub, [("hazmat.evaluate_multi_vs", a_bary, rows_out)],
